@@ -18,6 +18,9 @@ VERIF = os.path.dirname(os.path.dirname(os.path.abspath(__file__)))
 REPO = os.environ.get("VERIF_REPO", "/repo")
 SRC = os.path.join(REPO, "src")
 BUILD = os.path.join(VERIF, "build")
+if os.path.realpath(REPO) != "/repo":
+    # checks run against a scratch tree (seeded change, proposed fix) keep their own objects and binaries
+    BUILD = os.path.join(VERIF, "build", "alt-" + hashlib.sha1(os.path.realpath(REPO).encode()).hexdigest()[:10])
 COMMON = os.path.join(VERIF, "engines", "common")
 JOBS = int(os.environ.get("VERIF_JOBS", "16"))
 
